@@ -155,3 +155,29 @@ Proof.
     replace (- (lamS t - (IZR k * 90 + 180 * - IZR m))) with (IZR k * 90 - lamS t - 180 * IZR m) by ring.
     exact Hm.
 Qed.
+
+(* the two cases spelled out: target longitude or antipode, modulo whole turns *)
+Theorem season_target_or_antipode k y :
+  (0 <= k <= 3)%Z -> (-1000 <= y <= 3000)%Z -> CtorExact (Dreg (jde0 k y)) ->
+  let v := Sun_get_equinox_solstice Rops (VInt y) (VStr (season_name k)) in
+  v = VErr OutOfFuel \/
+  exists t lon lat r (n : Z),
+    v = epo t /\
+    Sun_apparent_geocentric_position Rops (epo t) (VBool true) = VTuple [ang lon; ang lat; VFloat r] /\
+    0 <= lon < 360 /\
+    (Rabs (lon - (IZR k * 90 + 360 * IZR n)) < 25 / 10000000 \/
+     Rabs (lon - (IZR k * 90 + 180 + 360 * IZR n)) < 25 / 10000000).
+Proof.
+  intros Hk Hy Hctor v.
+  destruct (season_longitude k y Hk Hy Hctor) as [Hv|(t & lon & lat & r & m & Hv & Hs & Hl & Hm)];
+    [left; exact Hv|right].
+  exists t, lon, lat, r, (m / 2)%Z. repeat split; try assumption; try lra.
+  pose proof (Z.div_mod m 2 ltac:(lia)) as Hd. pose proof (Z.mod_pos_bound m 2 ltac:(lia)) as Hb.
+  assert (m mod 2 = 0 \/ m mod 2 = 1)%Z as [E|E] by lia; rewrite E in Hd.
+  - left. replace (IZR m) with (2 * IZR (m / 2)) in Hm
+      by (rewrite Hd at 2; rewrite plus_IZR, mult_IZR; simpl; ring).
+    replace (IZR k * 90 + 360 * IZR (m / 2)) with (IZR k * 90 + 180 * (2 * IZR (m / 2))) by ring. exact Hm.
+  - right. replace (IZR m) with (2 * IZR (m / 2) + 1) in Hm
+      by (rewrite Hd at 2; rewrite plus_IZR, mult_IZR; simpl; ring).
+    replace (IZR k * 90 + 180 + 360 * IZR (m / 2)) with (IZR k * 90 + 180 * (2 * IZR (m / 2) + 1)) by ring. exact Hm.
+Qed.
